@@ -1,6 +1,7 @@
 mod borrow;
 mod exec;
 mod gen;
+mod huge;
 mod types;
 mod zst;
 
@@ -45,6 +46,9 @@ fn main() {
             }
             let off: u64 = args[4].parse().unwrap_or_else(|_| usage());
             exec::exec_child(&args[2], &args[3], off, args[5] == "1");
+        }
+        "huge" => {
+            std::process::exit(huge::main(&args[2..]));
         }
         "zst" => {
             std::process::exit(zst::main());
